@@ -321,3 +321,84 @@ package retrypolicy
 //@   requires c != nil
 //@   ensures [C16.retry.listener_registered_exceeded] c.onRetriesExceeded == listener && c.onAbort == old(c.onAbort) && c.onRetry == old(c.onRetry) && c.onRetryScheduled == old(c.onRetryScheduled) && result == asiface(c)
 //@   modifies c.onRetriesExceeded
+
+// Builder wrappers: each delegates exactly once to the shared registration function of the same name on its own base policy
+// and returns the builder itself.
+//@ func (*config).HandleErrors
+//@   builder
+//@   requires c != nil && c.BaseFailurePolicy != nil
+//@   oldlet nd := 0
+//@   oldlet dr := nil
+//@   oldlet dn := -1
+//@   oncall (*BaseFailurePolicy).HandleErrors: nd := nd + 1; dr := callarg_0; dn := len(callarg_1)
+//@   ensures [C12.retry.handleerrors_delegates+C02.builder.handleerrors] nd == 1 && dr == c.BaseFailurePolicy && result_0 == asiface(c) && dn == len(errs)
+//@   havoc
+//@   modifies *
+//@ func (*config).HandleErrorTypes
+//@   builder
+//@   requires c != nil && c.BaseFailurePolicy != nil
+//@   oldlet nd := 0
+//@   oldlet dr := nil
+//@   oldlet dn := -1
+//@   oncall (*BaseFailurePolicy).HandleErrorTypes: nd := nd + 1; dr := callarg_0; dn := len(callarg_1)
+//@   ensures [C12.retry.handleerrortypes_delegates+C02.builder.handleerrortypes] nd == 1 && dr == c.BaseFailurePolicy && result_0 == asiface(c) && dn == len(errs)
+//@   havoc
+//@   modifies *
+//@ func (*config).HandleResult
+//@   builder
+//@   requires c != nil && c.BaseFailurePolicy != nil
+//@   oldlet nd := 0
+//@   oldlet dr := nil
+//@   oncall (*BaseFailurePolicy).HandleResult: nd := nd + 1; dr := callarg_0
+//@   ensures [C12.retry.handleresult_delegates+C02.builder.handleresult] nd == 1 && dr == c.BaseFailurePolicy && result_0 == asiface(c)
+//@   havoc
+//@   modifies *
+//@ func (*config).HandleIf
+//@   builder
+//@   requires c != nil && c.BaseFailurePolicy != nil
+//@   oldlet nd := 0
+//@   oldlet dr := nil
+//@   oldlet da := nil
+//@   oncall (*BaseFailurePolicy).HandleIf: nd := nd + 1; dr := callarg_0; da := callarg_1
+//@   ensures [C12.retry.handleif_delegates+C02.builder.handleif] nd == 1 && dr == c.BaseFailurePolicy && result_0 == asiface(c) && da == predicate
+//@   havoc
+//@   modifies *
+//@ func (*config).AbortOnErrors
+//@   builder
+//@   requires c != nil && c.BaseAbortablePolicy != nil
+//@   oldlet nd := 0
+//@   oldlet dr := nil
+//@   oldlet dn := -1
+//@   oncall (*BaseAbortablePolicy).AbortOnErrors: nd := nd + 1; dr := callarg_0; dn := len(callarg_1)
+//@   ensures [C12.retry.abortonerrors_delegates+C02.builder.abortonerrors] nd == 1 && dr == c.BaseAbortablePolicy && result_0 == asiface(c) && dn == len(errs)
+//@   havoc
+//@   modifies *
+//@ func (*config).AbortOnErrorTypes
+//@   builder
+//@   requires c != nil && c.BaseAbortablePolicy != nil
+//@   oldlet nd := 0
+//@   oldlet dr := nil
+//@   oldlet dn := -1
+//@   oncall (*BaseAbortablePolicy).AbortOnErrorTypes: nd := nd + 1; dr := callarg_0; dn := len(callarg_1)
+//@   ensures [C12.retry.abortonerrortypes_delegates+C02.builder.abortonerrortypes] nd == 1 && dr == c.BaseAbortablePolicy && result_0 == asiface(c) && dn == len(errs)
+//@   havoc
+//@   modifies *
+//@ func (*config).AbortOnResult
+//@   builder
+//@   requires c != nil && c.BaseAbortablePolicy != nil
+//@   oldlet nd := 0
+//@   oldlet dr := nil
+//@   oncall (*BaseAbortablePolicy).AbortOnResult: nd := nd + 1; dr := callarg_0
+//@   ensures [C12.retry.abortonresult_delegates+C02.builder.abortonresult] nd == 1 && dr == c.BaseAbortablePolicy && result_0 == asiface(c)
+//@   havoc
+//@   modifies *
+//@ func (*config).AbortIf
+//@   builder
+//@   requires c != nil && c.BaseAbortablePolicy != nil
+//@   oldlet nd := 0
+//@   oldlet dr := nil
+//@   oldlet da := nil
+//@   oncall (*BaseAbortablePolicy).AbortIf: nd := nd + 1; dr := callarg_0; da := callarg_1
+//@   ensures [C12.retry.abortif_delegates+C02.builder.abortif] nd == 1 && dr == c.BaseAbortablePolicy && result_0 == asiface(c) && da == predicate
+//@   havoc
+//@   modifies *
